@@ -355,8 +355,10 @@ class Conversion(Contract):
         p.prove(z3.BoolVal(same_dtype(r.f.get("dtype"), dt(FAMILY[target], want_width))), f"{q}:C15:result records a dtype of the target namespace with the same width {tag}")
         p.prove(z3.BoolVal(r.f.get("parameters") is src["parameters"]), f"{q}:C15:parameters carried {tag}")
         if evidence and g["cls"] in ("Samples", "SMCSamples") and not (g["cls"] == "Samples" and all(not isinstance(src[k], NoneV) for k in FIELDS[1:])):
+            # the NumPy copy is what Samples.save writes (C13): evidence given to a sample set without all three log fields is not recomputed
+            t13 = "C13:" if q.endswith(".to_numpy") else ""
             for k in ("log_evidence", "log_evidence_error"):
-                p.prove(I.equal(r.f.get(k, NONE), src[k]), f"{q}:C15:{k} carried {tag}")
+                p.prove(I.equal(r.f.get(k, NONE), src[k]), f"{q}:C15:{t13}{k} carried {tag}")
         if g["cls"] == "SMCSamples":
             p.prove(I.equal(r.f.get("beta", NONE), src["beta"]), f"{q}:C15:beta carried {tag}")
 
